@@ -1,5 +1,5 @@
-//! C15 driver: runs the real `cascette-ribbit` server (library entry point `Server::new(..).run()`) on
-//! loopback ports and talks to it with this project's own clients (`RibbitClient` for TCP v1/v2 incl. the
+//! C15 driver: runs the real `cascette-ribbit` server (library entry points `Server::new` for loading, then
+//! `tcp::start_server` + `http::start_server`, the two tasks `Server::run` spawns) on loopback ports and talks to it with this project's own clients (`RibbitClient` for TCP v1/v2 incl. the
 //! V1 MIME checksum verification, `TactClient` for HTTP) and, for malformed requests, with raw sockets.
 //!
 //! usage: drv_ribbit --programs <file|-> --out <file|-> [--par N] [--big BYTES] [--nofile N]
@@ -24,13 +24,13 @@
 //!   {"op":"open","seq":n,"c":c,"tr":..,"n":k,"res":{"connected":k}}
 //!   {"op":"send","seq":n,"c":c,"cls":..,"res":{"sent":k}}
 //!   {"op":"finish","seq":n,"c":c,"ms":t,"res":{"outs":[{"out":"closed"|"reply"|"open","status":s,"rows":r,"bytes":b},..]}}
-//!   {"op":"end","seq":n,"res":{"panics":[..],"server_exited":bool}}
+//!   {"op":"end","seq":n,"res":{"panics":[..],"server_exited":bool,"tcp_exited":bool}}   (listener tasks returned)
 //!   {"op":"hang","res":{"outcome":"hang"}}
 //! `v` of a typed value is its canonical text: the string itself, lower-case hex of the bytes, the
 //! decimal rendering of the i64.  Non-ASCII characters are written as \uXXXX escapes.
 use cascette_formats::bpsv::{BpsvDocument, BpsvValue};
 use cascette_protocol::{RibbitClient, TactClient};
-use cascette_ribbit::{Server, ServerConfig};
+use cascette_ribbit::{AppState, Server, ServerConfig};
 use futures::FutureExt;
 use serde_json::{Value, json};
 use std::collections::HashMap;
@@ -88,7 +88,8 @@ struct Srv {
     rt: Option<tokio::runtime::Runtime>,
     tcp: u16,
     http: u16,
-    task: tokio::task::JoinHandle<()>,
+    tcp_task: tokio::task::JoinHandle<()>,
+    http_task: tokio::task::JoinHandle<()>,
     _dir: tempfile::TempDir,
 }
 
@@ -122,8 +123,23 @@ fn db_json(prog: &Value) -> Value {
     Value::Array(out)
 }
 
-fn free_port() -> u16 {
-    std::net::TcpListener::bind("127.0.0.1:0").expect("bind probe").local_addr().expect("addr").port()
+/// Ports come from a range below the kernel's ephemeral range (so nobody's `bind(0)` or outgoing connection takes
+/// them), walked by a process-wide counter; `--port-base` / `--port-span` keep concurrent driver processes apart.
+/// A port that cannot be bound is skipped; a listener that fails to bind makes its start function return an
+/// error, which is noticed below and answered by another attempt - a program never talks to another program's server.
+static NEXT_PORT: std::sync::atomic::AtomicU32 = std::sync::atomic::AtomicU32::new(0);
+static PORT_BASE: std::sync::atomic::AtomicU32 = std::sync::atomic::AtomicU32::new(10000);
+static PORT_SPAN: std::sync::atomic::AtomicU32 = std::sync::atomic::AtomicU32::new(22000);
+
+fn next_port() -> u16 {
+    use std::sync::atomic::Ordering::Relaxed;
+    loop {
+        let k = NEXT_PORT.fetch_add(1, Relaxed) % PORT_SPAN.load(Relaxed);
+        let p = (PORT_BASE.load(Relaxed) + k) as u16;
+        if std::net::TcpListener::bind(("127.0.0.1", p)).is_ok() {
+            return p;
+        }
+    }
 }
 
 enum Started {
@@ -135,8 +151,8 @@ async fn start_server(idx: usize, prog: &Value) -> Started {
     let dir = tempfile::tempdir_in(scratch()).expect("tempdir");
     let path = dir.path().join("builds.json");
     std::fs::write(&path, serde_json::to_vec(&db_json(prog)).expect("db json")).expect("write db");
-    for _attempt in 0..8 {
-        let (tcp, http) = (free_port(), free_port());
+    for _attempt in 0..20 {
+        let (tcp, http) = (next_port(), next_port());
         let config = ServerConfig {
             http_bind: format!("127.0.0.1:{http}").parse().expect("addr"),
             tcp_bind: format!("127.0.0.1:{tcp}").parse().expect("addr"),
@@ -149,33 +165,45 @@ async fn start_server(idx: usize, prog: &Value) -> Started {
         if let Err(e) = config.validate() {
             return Started::Rejected(format!("config: {e}"));
         }
-        let server = match Server::new(config) {
-            Ok(s) => s,
+        // Server::new = AppState::new + bookkeeping; Server::run = spawn(http::start_server) + spawn(tcp::start_server)
+        // + wait for ctrl-c, and it only *logs* a failed bind.  The two listeners are started here directly so
+        // that a failed bind is seen (their start functions return it).
+        if let Err(e) = Server::new(config.clone()) {
+            return Started::Rejected(e.to_string());
+        }
+        let state = match AppState::new(&config) {
+            Ok(s) => Arc::new(s),
             Err(e) => return Started::Rejected(e.to_string()),
         };
         let rt = tokio::runtime::Builder::new_multi_thread()
-            .worker_threads(2)
+            .worker_threads(1)
             .thread_name(format!("srv-{idx}"))
             .enable_all()
             .build()
             .expect("server runtime");
-        let task = rt.spawn(async move {
-            let _ = server.run().await;
+        let (s1, s2) = (state.clone(), state.clone());
+        let (a1, a2) = (config.tcp_bind, config.http_bind);
+        let tcp_task = rt.spawn(async move {
+            let _ = cascette_ribbit::tcp::start_server(a1, s1).await;
         });
-        // readiness: both listeners accept (a bind failure is only logged by run(), so poll)
-        let t0 = Instant::now();
-        let mut ready = false;
-        while t0.elapsed() < Duration::from_secs(20) && !task.is_finished() {
+        let http_task = rt.spawn(async move {
+            let _ = cascette_ribbit::http::start_server(a2, s2).await;
+        });
+        // The server runtime has ONE worker thread and runs tasks spawned from outside in FIFO order: when this
+        // marker task has run, both start functions have been polled once, i.e. they are past their bind (a
+        // failed bind returns immediately and finishes the task).
+        let (tx, rx) = tokio::sync::oneshot::channel::<()>();
+        rt.spawn(async move {
+            let _ = tx.send(());
+        });
+        let polled = tokio::time::timeout(Duration::from_secs(60), rx).await.is_ok();
+        if polled && !tcp_task.is_finished() && !http_task.is_finished() {
+            // both listeners are ours; they accept from now on (connections queue in the backlog)
             let a = TcpStream::connect(("127.0.0.1", tcp)).await.is_ok();
             let b = TcpStream::connect(("127.0.0.1", http)).await.is_ok();
             if a && b {
-                ready = true;
-                break;
+                return Started::Up(Srv { rt: Some(rt), tcp, http, tcp_task, http_task, _dir: dir });
             }
-            tokio::time::sleep(Duration::from_millis(15)).await;
-        }
-        if ready {
-            return Started::Up(Srv { rt: Some(rt), tcp, http, task, _dir: dir });
         }
         rt.shutdown_background();
     }
@@ -453,7 +481,7 @@ async fn run_program(idx: usize, prog: Value, big: usize, evs: Arc<Mutex<Vec<Str
         push(ev);
     }
     seq += 1;
-    push(json!({"op": "end", "seq": seq, "res": {"panics": server_panics(idx), "server_exited": srv.task.is_finished()}}));
+    push(json!({"op": "end", "seq": seq, "res": {"panics": server_panics(idx), "server_exited": srv.http_task.is_finished(), "tcp_exited": srv.tcp_task.is_finished()}}));
     drop(conns);
     let mut srv = srv;
     if let Some(rt) = srv.rt.take() {
@@ -490,6 +518,10 @@ fn main() {
     let programs = arg(&args, "--programs").map(|p| read_programs(&p)).unwrap_or_default();
     let par = arg_u64(&args, "--par", 16) as usize;
     let big = arg_u64(&args, "--big", 1 << 20) as usize;
+    PORT_BASE.store(arg_u64(&args, "--port-base", 10000) as u32, std::sync::atomic::Ordering::Relaxed);
+    PORT_SPAN.store(arg_u64(&args, "--port-span", 22000).max(2) as u32, std::sync::atomic::Ordering::Relaxed);
+    // start somewhere inside the span that differs between processes started at the same time
+    NEXT_PORT.store((std::process::id() * 7919) % 22000, std::sync::atomic::Ordering::Relaxed);
     let workers = std::env::var("VERIF_WORKERS").ok().and_then(|s| s.parse::<usize>().ok()).filter(|n| *n > 0).unwrap_or(4).min(8);
     let out_path = arg(&args, "--out");
     let mut out: Box<dyn std::io::Write> = match out_path.as_deref() {
